@@ -126,6 +126,17 @@ def judgeLine (j : J) (op : String) (outs : List String) : J × List String :=
       | none =>
         -- ill-typed / erroneous query (unknown or ambiguous column, unknown sort key): any error value will
         -- do - but a sort key that names no output column must not be answered with rows in some order
+        -- two tables under one name in FROM: no meaning, so no rows
+        let rec dupIds (tr : TableRef) (seen : List Bytes) : Bool × List Bytes :=
+          match tr with
+          | .table t => let id := t.alias.getD t.name; (seen.contains id, id :: seen)
+          | .join l _ r _ =>
+            let (d1, s1) := dupIds l seen
+            let id := r.alias.getD r.name
+            (d1 || s1.contains id, id :: s1)
+        if (match q.from_ with | some tr => (dupIds tr []).1 | none => false) && (outs.head?.getD "").startsWith "ok" then
+          (j, [s!"VIOLATION case={j.caseId} sig=exec:join:duplicate-table-name-accepted got=[{((outs.head?.getD "").take 100).toString}] op=[{short}]"])
+        else
         if (Spec.sortKeys q hdr0).isNone && !q.orderBy.isEmpty && (Spec.meaning (fetchOf j.st) q).isSome
             && (outs.head?.getD "").startsWith "ok" then
           (j, [s!"VIOLATION case={j.caseId} sig=exec:{cls}:unresolvable-sort-key-accepted got=[{((outs.head?.getD "").take 100).toString}] op=[{short}]"])
@@ -151,12 +162,17 @@ def judgeLine (j : J) (op : String) (outs : List String) : J × List String :=
             let v1 := if Spec.satisfies q hdr want got then [] else
               if running then [s!"VIOLATION case={j.caseId} sig=exec:aggregate:avg-running-rounding want=[{(" | ".intercalate (want.map showRowVals)).take 200}] got=[{(" | ".intercalate (got.map showRowVals)).take 200}] op=[{short}]"] else
               [s!"VIOLATION case={j.caseId} sig=exec:{cls}:wrong-result want=[{(" | ".intercalate (want.map showRowVals)).take 300}] got=[{(" | ".intercalate (got.map showRowVals)).take 300}] op=[{short}]"]
+            -- C06: an unqualified name that exists on both sides of a join is rejected, also in GROUP BY
+            -- (the code matches GROUP BY references against the select list only; pinned by its tests)
+            let ambGroup := q.groupBy.filter fun g => g.qual.isEmpty && (fields.filter fun f => f.column == g.name).length > 1
+            let v3 := if ambGroup.isEmpty then [] else
+              [s!"VIOLATION case={j.caseId} sig=exec:aggregate:ambiguous-group-by-name-accepted name={hexOrDash ((ambGroup.head?.map (·.name)).getD [])} op=[{short}]"]
             let v2 := match expectedHeader q fields with
               | some eh =>
                 if implHeader first == eh.map hexOrDash then [] else
                   [s!"VIOLATION case={j.caseId} sig=exec:header want=[{",".intercalate (eh.map hexOrDash)}] got=[{first}] op=[{short}]"]
               | none => []
-            (j, v1 ++ v2)
+            (j, v1 ++ v2 ++ v3)
     | _ => (j, [])
   | _ => (j, [])
 
